@@ -1,6 +1,8 @@
 (* C10 — Timed B-tree equals a multi-version ordered map; snapshots are immutable.
    This file contains only the property theorems, each closed by `exact`.
-   Model: Index/BTree.v (tree), Index/TBState.v (TBtree object); spec: Index/MVMap.v. *)
+   Model: Index/BTree.v (tree), Index/TBState.v (TBtree object); spec: Index/MVMap.v.
+   The model follows /repo incl. e30fc04 (lastUpdateBetween stays inside the key's own history
+   chain) and 18b7c7d (lastSnapRoot = loaded root after OpenWith). *)
 From V Require Import Index.MVMap Index.MVMapProofs Index.BTree Index.BTreeProofs Index.QueryProofs
   Index.ReaderProofs Index.TBState Index.TBStateProofs Index.WalkProofs Index.KeyInv Index.PastState Index.C10Theorems.
 
@@ -19,22 +21,21 @@ Theorem C10_tree_insert_refines_map : forall maxn maxkey maxval root kvts,
 Proof. exact tree_insert_refines. Qed.
 Print Assumptions C10_tree_insert_refines_map.
 
-(* For EVERY sequence of operations (bulk inserts incl. refused/rejected ones, IncreaseTs, flushes with
-   or without cleanup, syncs, compactions, close/reopen, snapshots, snapshot closes) and EVERY tree
-   that lives in the resulting state (current root, last flushed root, every open snapshot, every
-   compaction dump): the tree satisfies the invariants, and Get, History (both directions, any offset
-   and limit) and GetWithPrefix return exactly what the abstract map defines; GetBetween does so
-   whenever the key has a version not newer than finalTs (or finalTs = 0, or the window is empty,
-   or the key is absent).  Partial because of C10_get_between_refuted. *)
-Theorem C10_btree_refines_mvmap_partial : forall cfg ops n,
+(* btree_refines_mvmap: for EVERY sequence of operations (bulk inserts incl. refused/rejected ones,
+   IncreaseTs, flushes with or without cleanup, syncs, compactions, close/reopen, snapshots, snapshot
+   closes) and EVERY tree that lives in the resulting state (current root, last flushed root, every
+   open snapshot, every compaction dump): the tree satisfies the invariants, and Get, GetBetween (any
+   time window, whatever the history log holds elsewhere), History (both directions, any offset and
+   limit) and GetWithPrefix return exactly what the abstract map defines. *)
+Theorem C10_btree_refines_mvmap : forall cfg ops n,
   cfg_ok cfg -> in_state n (mrun cfg ops) ->
   good cfg n /\
   (forall k, get n k = mv_get k (abs n)) /\
+  (forall h0 k i f, get_between h0 n k i f = mv_get_between k i f (abs n)) /\
   (forall k off desc limit, history n k off desc limit = mv_history k off desc limit (abs n)) /\
-  (forall prefix neq, get_with_prefix n prefix neq = Ok (mv_get_with_prefix prefix neq (abs n))) /\
-  (forall h0 k i f, between_ok n k i f -> get_between h0 n k i f = mv_get_between k i f (abs n)).
-Proof. exact btree_refines_mvmap_partial. Qed.
-Print Assumptions C10_btree_refines_mvmap_partial.
+  (forall prefix neq, get_with_prefix n prefix neq = Ok (mv_get_with_prefix prefix neq (abs n))).
+Proof. exact btree_refines_mvmap. Qed.
+Print Assumptions C10_btree_refines_mvmap.
 
 (* The sorted-keys invariant gives the separator invariant of every inner node: the children's
    min keys are strictly increasing and every key below a child is smaller than the next child's
@@ -50,7 +51,10 @@ Print Assumptions C10_separators.
    timestamp not above the current one) changes nothing; an accepted batch is the map's bulk insert
    of the batch with zero timestamps replaced by current+1; IncreaseTs, flushes (any cleanup), sync,
    compaction, snapshots change nothing; close/reopen gives the same content or the content of a
-   compaction dump.  Nothing is claimed for a batch the map rejects: C10_rollback_refuted. *)
+   compaction dump.  Partial: a batch the MAP rejects (same key, decreasing timestamp inside the
+   batch) should change nothing, but the tree may go back to its last flushed root
+   (C10_rollback_refuted; asserted as intended by TestMultiTimedBulkInsertion); it is replaced by an
+   empty tree only if it was never flushed or restarted. *)
 Theorem C10_operations_on_content_partial : forall cfg st o, cfg_ok cfg -> st_good cfg st ->
   let st' := mstep cfg st o in
   match o with
@@ -58,7 +62,10 @@ Theorem C10_operations_on_content_partial : forall cfg st o, cfg_ok cfg -> st_go
       match spec_insert cfg (node_ts (s_root st)) kvts (abs (s_root st)) with
       | Refused => abs (s_root st') = abs (s_root st)
       | Accepted m' => abs (s_root st') = m'
-      | Rejected => True
+      | Rejected =>
+          abs (s_root st') = abs (s_root st) \/
+          (exists l, s_last st = Some l /\ abs (s_root st') = abs l) \/
+          (s_last st = None /\ abs (s_root st') = [])
       end
   | MReopen => abs (s_root st') = abs (s_root st) \/
                exists d, In d (s_dumps st) /\ abs (s_root st') = abs (snd d)
@@ -67,35 +74,55 @@ Theorem C10_operations_on_content_partial : forall cfg st o, cfg_ok cfg -> st_go
 Proof. exact mstep_content. Qed.
 Print Assumptions C10_operations_on_content_partial.
 
+(* Since 18b7c7d a restart defines the last flushed root (the loaded root), no later operation
+   undefines it, and then a rejected batch leaves the content as it is or as that root has it: the
+   tree is never emptied by a rejected batch after a restart. *)
+Theorem C10_restart_defines_last_root : forall cfg st st',
+  reopen cfg st = (st', true) -> s_last st' <> None.
+Proof. exact reopen_defines_last. Qed.
+Print Assumptions C10_restart_defines_last_root.
+
+Theorem C10_last_root_stays_defined : forall cfg st o,
+  s_last st <> None -> s_last (mstep cfg st o) <> None.
+Proof. exact last_stays_defined. Qed.
+Print Assumptions C10_last_root_stays_defined.
+
+Theorem C10_rejected_batch_never_empties_tree : forall cfg st kvts,
+  cfg_ok cfg -> st_good cfg st -> s_last st <> None ->
+  spec_insert cfg (node_ts (s_root st)) kvts (abs (s_root st)) = Rejected ->
+  let st' := mstep cfg st (MInsert kvts) in
+  abs (s_root st') = abs (s_root st) \/ exists l, s_last st = Some l /\ abs (s_root st') = abs l.
+Proof. exact rejected_batch_after_restart. Qed.
+Print Assumptions C10_rejected_batch_never_empties_tree.
+
 (* Readers: for EVERY combination of reader fields (seek/end key, inclusiveness, prefix, direction,
-   offset) and every tree of every reachable state, everything the Reader returns until
-   ErrNoMoreEntries -- by the path-climbing cursor over the B-tree -- is exactly the operational
-   reading of the abstract map (MVMap.mv_walk), in the modes Read and Read-with-history; in the mode
-   ReadBetween under the same condition as GetBetween. *)
-Theorem C10_reader_refines_map_partial : forall cfg ops n h0 s mode,
-  cfg_ok cfg -> in_state n (mrun cfg ops) -> mode_ok mode n ->
+   offset), every mode (Read, Read with history, ReadBetween with any window) and every tree of every
+   reachable state, everything the Reader returns until ErrNoMoreEntries -- by the path-climbing
+   cursor over the B-tree -- is exactly the operational reading of the abstract map (MVMap.mv_walk). *)
+Theorem C10_reader_refines_map : forall cfg ops n h0 s mode,
+  cfg_ok cfg -> in_state n (mrun cfg ops) ->
   read_all h0 n s mode = Ok (mv_walk s mode (abs n)).
-Proof. exact reader_refines_partial. Qed.
-Print Assumptions C10_reader_refines_map_partial.
+Proof. exact reader_refines. Qed.
+Print Assumptions C10_reader_refines_map.
 
 (* reader_spec: for EVERY ReaderSpec that Snapshot.NewReader accepts (every combination of seek key,
-   end key, inclusiveness of both, prefix, direction, offset), on every tree of every reachable state
-   (the keys handed to BulkInsert being byte strings), everything the Reader returns until
-   ErrNoMoreEntries is exactly the declarative range of the abstract map: the keys with the prefix
-   between the seek and the end bound in reader order, the first `offset` of them skipped, each
-   expanded by the mode (latest version / whole history in reader direction / newest version in
-   the time window).  The seek/end adjustment of NewReader (prefix padding with 0xFF up to
-   MaxKeySize) is part of what is proved.  ReadBetween under the same condition as GetBetween. *)
-Theorem C10_reader_spec_partial : forall cfg ops n h0 s s' mode,
-  cfg_ok cfg -> ops_bytes_ok ops -> in_state n (mrun cfg ops) -> mode_ok mode n ->
+   end key, inclusiveness of both, prefix, direction, offset) and every mode, on every tree of every
+   reachable state (the keys handed to BulkInsert being byte strings), everything the Reader returns
+   until ErrNoMoreEntries is exactly the declarative range of the abstract map: the keys with the
+   prefix between the seek and the end bound in reader order, the first `offset` of them skipped,
+   each expanded by the mode (latest version / whole history in reader direction / newest version
+   in the time window).  The seek/end adjustment of NewReader (prefix padding with 0xFF up to
+   MaxKeySize) is part of what is proved. *)
+Theorem C10_reader_spec : forall cfg ops n h0 s s' mode,
+  cfg_ok cfg -> ops_bytes_ok ops -> in_state n (mrun cfg ops) ->
   new_reader (c_maxkey cfg) s = Some s' ->
   read_all h0 n s' mode = Ok (mv_scan s mode (abs n)).
-Proof. exact reader_spec_partial. Qed.
-Print Assumptions C10_reader_spec_partial.
+Proof. exact reader_spec. Qed.
+Print Assumptions C10_reader_spec.
 
 (* Snapshots are values of the persistent tree: no later operation other than closing it changes
-   an open snapshot, so every query on it keeps returning the same result; and block 0 of the
-   history log (the only other thing GetBetween/ReadBetween on a snapshot can read) never changes
+   an open snapshot, so every query on it keeps returning the same result (by the theorems above no
+   query depends on anything but the snapshot's tree); block 0 of the history log never changes
    once it exists. *)
 Theorem C10_snapshot_immutable : forall cfg st ops id r,
   snap_find id st = Some r -> Forall (keeps_snapshot id) ops ->
@@ -129,18 +156,9 @@ Theorem C10_snapshot_not_older_than_requested : forall cfg id ts renew st st' r,
 Proof. exact snapshot_not_older. Qed.
 Print Assumptions C10_snapshot_not_older_than_requested.
 
-(* The code that exists does NOT refine the map for GetBetween: after a@1 a@2 flush b@5 b@6 b@7 flush,
-   GetBetween(b, 1, 3) returns a's value at ts 1 (the map: not found). *)
-Theorem C10_get_between_refuted :
-  exists cfg ops k i f, cfg_ok cfg /\
-    let st := mrun cfg ops in
-    get_between (s_h0 st) (s_root st) k i f = Some ([65; 49], 1, 0) /\
-    mv_get_between k i f (abs (s_root st)) = None.
-Proof. exact get_between_refuted. Qed.
-Print Assumptions C10_get_between_refuted.
-
-(* ... and a batch the map rejects is not without effect: after a@1 flush c@2, the batch [d@9; d@8] is
-   rejected, and with it c disappears and Ts() goes back from 2 to 1. *)
+(* The code that exists: a batch the map rejects is not without effect.  After a@1 flush c@2, the
+   batch [d@9; d@8] is rejected, and with it c disappears and Ts() goes back from 2 to 1 (known
+   finding; the in-process rollback is asserted by TestMultiTimedBulkInsertion). *)
 Theorem C10_rollback_refuted :
   exists cfg ops kvts k, cfg_ok cfg /\
     let st := mrun cfg ops in
